@@ -110,6 +110,10 @@ let parse_op (kinds : (okind * int) list) (w : string) : Tok.top =
   | "wn" -> Tok.TWSubscribe (ob 0, nat 1, nat 2)
   | "wl" -> Tok.TWClosed (ob 0, nat 1)
   | "wi" -> Tok.TWInfo (ob 0, nat 1)
+  | "dg" -> (match fst (kind_of 0) with KRw k -> Tok.TDowngrade (ob 0, k) | _ -> failwith ("not a rwlock in " ^ w))
+  | "mg" -> (match fst (kind_of 0) with KSem -> Tok.TMerge (ob 0) | _ -> Tok.TMerge nowhere)
+  | "sp" -> (match fst (kind_of 0) with KSem -> Tok.TSplit (ob 0, n_of_string (arg 1)) | _ -> Tok.TSplit (nowhere, n_of_string (arg 1)))
+  | "oi" -> Tok.TOsIsClosed (ob 0)
   | _ -> failwith ("bad op " ^ w)
 
 let parse_bodies kinds (s : string) : Tok.top list list =
